@@ -56,7 +56,7 @@ class ProgramRunner:
             else:
                 r.outside_write(copy.deepcopy(init), bump=False)
         self.objs = {}
-        if any("new" in st for t in self.prog["threads"] for st in t):
+        if self.prog.get("ctor_mt_off") or any("new" in st for t in self.prog["threads"] for st in t):
             # objects constructed inside the threads: the file's lock must not be registered yet (isolation between
             # the runs of one program; the registry itself is the library's and is only emptied of this entry)
             for r in self.resources:
@@ -93,6 +93,7 @@ class ProgramRunner:
         objs = self.objs
         opstart = self.opstart = {}
         newspan = self.newspan = {}  # thread -> (points before, points after) its constructor step
+        lazy_first = bool(self.prog.get("ctor_mt_off"))
         current = {}  # thread ident -> (thread index, op index) of the client call in progress
 
         def body(ti, steps):
@@ -105,6 +106,12 @@ class ProgramRunner:
                         newspan[ti] = (n0, sched.SCHED.nsteps[ti] if ti < len(sched.SCHED.nsteps) else n0)
                         continue
                     hist.append(("call", next(clock), ti, si))
+                    if lazy_first and ti not in newspan:
+                        # objects were constructed with multithreading support off: whatever the library sets up
+                        # lazily happens at the start of a thread's first operation - treated like a constructor
+                        # span by the "ctor" schedule family
+                        n0 = sched.SCHED.nsteps[ti] if ti < len(sched.SCHED.nsteps) else 0
+                        newspan[ti] = (n0, n0 + 60)
                     current[threading.get_ident()] = (ti, si)
                     opstart[(ti, si)] = sched.SCHED.nsteps[ti] if ti < len(sched.SCHED.nsteps) else 0
                     try:
@@ -417,7 +424,7 @@ def explore(prog, runner, rng, tier, sig_base, check_extra=None, budget_runs=Non
         # constructor*, thread B then runs to its k-th point (k swept), A completes, B completes:
         #     A: half a constructor | B: constructor + partial op | A: rest | B: rest
         for a in range(nthreads):
-            if not any("new" in st for st in prog["threads"][a]):
+            if not any("new" in st for st in prog["threads"][a]) and not prog.get("ctor_mt_off"):
                 continue
             for b in range(nthreads):
                 if b == a:
@@ -427,7 +434,9 @@ def explore(prog, runner, rng, tier, sig_base, check_extra=None, budget_runs=Non
                 span = runner.newspan.get(a)
                 if res["status"] != "ok" or not span:
                     continue
-                k1s = [k for k in select_ks(res["site_seq"][a]) if span[0] < k <= span[1]]
+                # every point of the span (it is short), not only the site-selected ones
+                k1s = [k for k in range(span[0] + 1, min(span[1], len(res["site_seq"][a])) + 1)]
+                k1s.reverse()  # registrations and lazy set-up sit at the end of the span: explore from there
                 if tier == "quick":
                     if (a, b) != (0, 1):
                         continue  # one ordered pair of threads at the quick tier
@@ -437,7 +446,7 @@ def explore(prog, runner, rng, tier, sig_base, check_extra=None, budget_runs=Non
                         continue
                     ks = select_ks(res["site_seq"][b])
                     if tier == "quick":
-                        ks = ks[:: 2]
+                        ks = ks[:: 3]
                     out["ctor_points"] = out.get("ctor_points", 0) + len(ks)
                     for k in ks:
                         if late():
